@@ -472,7 +472,7 @@ def swap_method(name, fn):
 # change (a): get_motl_subset / remove_feature / split_by_feature -- ORIGINAL text of the three functions
 # ======================================================================================================================
 def orig_get_motl_subset(self, feature_values, feature_id="tomo_id", return_df=False, reset_index=True):
-    if isinstance(feature_values, list):
+    if isinstance(feature_values, (list, np.ndarray)):
         feature_values = np.array(feature_values)
     else:
         feature_values = np.array([feature_values])
